@@ -2,6 +2,7 @@ package main
 
 import (
 	"fmt"
+	"go/constant"
 	"go/token"
 	"go/types"
 	"strings"
@@ -310,6 +311,10 @@ func (t *Translator) convert(st *State, in *ssa.Convert) {
 		t.vals[in] = x
 	case fok && tok && fb.Info()&types.IsString != 0 && tb.Info()&types.IsString != 0:
 		t.vals[in] = x
+	case fok && tok && fb.Info()&types.IsInteger != 0 && tb.Info()&types.IsString != 0 && isConstInt(in.X):
+		// string(rune constant)
+		v, _ := constant.Int64Val(in.X.(*ssa.Const).Value)
+		t.vals[in] = t.S().StrLit(string(rune(v)))
 	default:
 		so := t.S().SortOf(in.Type())
 		fso := t.S().SortOf(in.X.Type())
@@ -317,6 +322,11 @@ func (t *Translator) convert(st *State, in *ssa.Convert) {
 		t.vc.declareFun(fn, []string{fso}, so)
 		t.vals[in] = "(" + fn + " " + x + ")"
 	}
+}
+
+func isConstInt(v ssa.Value) bool {
+	c, ok := v.(*ssa.Const)
+	return ok && c.Value != nil && c.Value.Kind() == constant.Int
 }
 
 func (t *Translator) implementers(it *types.Interface) []types.Type {
@@ -503,9 +513,9 @@ func (t *Translator) sliceOp(st *State, in *ssa.Slice) {
 		sv := t.val(st, in.X)
 		t.vc.needStrFuns()
 		if hi == "" {
-			hi = "(str.len " + sv + ")"
+			hi = "(str!len " + sv + ")"
 		}
-		t.safety(st, "slicebounds", "(and (<= 0 "+lo+") (<= "+lo+" "+hi+") (<= "+hi+" (str.len "+sv+")))", in.Pos(), "string")
+		t.safety(st, "slicebounds", "(and (<= 0 "+lo+") (<= "+lo+" "+hi+") (<= "+hi+" (str!len "+sv+")))", in.Pos(), "string")
 		t.vals[in] = "(substr " + sv + " " + lo + " " + hi + ")"
 	default:
 		panic("slice of " + in.X.Type().String())
@@ -556,13 +566,13 @@ func (t *Translator) binop(st *State, in *ssa.BinOp) {
 			t.vc.needStrFuns()
 			switch in.Op {
 			case token.LSS:
-				t.vals[in] = "(str.lt " + x + " " + y + ")"
+				t.vals[in] = "(str!lt " + x + " " + y + ")"
 			case token.GTR:
-				t.vals[in] = "(str.lt " + y + " " + x + ")"
+				t.vals[in] = "(str!lt " + y + " " + x + ")"
 			case token.LEQ:
-				t.vals[in] = "(not (str.lt " + y + " " + x + "))"
+				t.vals[in] = "(not (str!lt " + y + " " + x + "))"
 			default:
-				t.vals[in] = "(not (str.lt " + x + " " + y + "))"
+				t.vals[in] = "(not (str!lt " + x + " " + y + "))"
 			}
 		} else {
 			t.vals[in] = "(" + op + " " + x + " " + y + ")"
@@ -570,7 +580,7 @@ func (t *Translator) binop(st *State, in *ssa.BinOp) {
 	case token.ADD:
 		if isStr {
 			t.vc.needStrFuns()
-			t.vals[in] = "(str.cat " + x + " " + y + ")"
+			t.vals[in] = "(str!cat " + x + " " + y + ")"
 		} else {
 			t.vals[in] = "(+ " + x + " " + y + ")"
 		}
